@@ -54,8 +54,15 @@ def scenario_for(seed, index, tier):
         all_items.append(items)
         all_writes.append(writes)
     seg = rng.random() < 0.7
+    via = 'user'
+    if logins == 2 and rng.random() < 0.5:
+        # the server drops the first connection; the exception handler
+        # reconnects without any disconnect() in between
+        via = 'handler'
+        conns[0]['play'] = conns[0]['play'] + [
+            ['expect', len(all_writes[0])], ['close']]
     return {
-        'kind': 'login', 'proto': proto, 'compress': compress,
+        'kind': 'login', 'proto': proto, 'compress': compress, 'via': via,
         'logins': logins, 'items': all_items, 'writes': all_writes,
         'server': {'conns': conns},
         'net': {'latency_us': rng.choice([50, 500]), 'segment': seg,
@@ -114,11 +121,18 @@ def execute(scenario, tape):
     def build(w):
         from minecraft.networking.connection import Connection
         from minecraft.networking.packets import Packet, serverbound
+        def on_exc(e, i):
+            if scenario.get('via') == 'handler' and st['login_no'] == 0 \
+                    and isinstance(e, EOFError):
+                st['login_no'] = 1
+                st['in_play'] = False
+                st['handler_reconnect'] = True
+                conn.connect()
+                return
+            (st['late'] if st.get('closing') else st['errs']).append(e)
         conn = Connection('sim.example', 25565, username='crypt',
                           allowed_versions=[scenario['proto']],
-                          handle_exception=lambda e, i: (
-                              st['late'] if st.get('closing')
-                              else st['errs']).append(e))
+                          handle_exception=on_exc)
         st['late'] = []
 
         def on_packet(p):
@@ -132,14 +146,18 @@ def execute(scenario, tape):
 
         def user():
             for k in range(scenario['logins']):
-                st['login_no'] = k
-                st['in_play'] = False
-                st['closing'] = False
-                r = w.api('connect', conn.connect)
-                if not r.ok:
-                    st['errs'].append(r.exc)
-                    return
-                w.wait_until(lambda: st['in_play'] or st['errs'], 30000000)
+                handler = scenario.get('via') == 'handler'
+                if k == 0 or not handler:
+                    st['login_no'] = k
+                    st['in_play'] = False
+                    st['closing'] = False
+                    r = w.api('connect', conn.connect)
+                    if not r.ok:
+                        st['errs'].append(r.exc)
+                        return
+                w.wait_until(lambda: (st['in_play'] and
+                                      st['login_no'] == k) or st['errs'],
+                             30000000)
                 if st['errs']:
                     return
                 for wr in scenario['writes'][k]:
@@ -154,6 +172,14 @@ def execute(scenario, tape):
                         app is not None and
                         app.play_frames >= len(scenario['writes'][k]) and
                         len(st['logs'][k]) >= len(scenario['items'][k]))
+                if handler and k == 0:
+                    # the server closes once it has everything; the handler
+                    # then reconnects by itself
+                    st['first_settled'] = True
+                    w.wait_until(lambda: st['errs'] or (
+                        len(st['logs'][0]) >= len(scenario['items'][0]) and
+                        st['login_no'] == 1), 60000000)
+                    continue
                 w.wait_until(settled, 60000000)
                 st['closing'] = True
                 w.api('disconnect', conn.disconnect)
@@ -163,7 +189,7 @@ def execute(scenario, tape):
     w.run(build)
     res = common.result_from_world(w)
     res.summary = {'kind': 'login', 'proto': scenario['proto'],
-                   'logins': scenario['logins'],
+                   'logins': scenario['logins'], 'via': scenario.get('via'),
                    'compress': scenario['compress'],
                    'key_bits': [c['login'][[s[0] for s in c['login']].index(
                        'encrypt')][1]['bits']
@@ -184,8 +210,10 @@ def check_login(scenario, w, st, res, ids):
     def ob(n=1):
         res.obligations += n
     res.nontrivial = True
-    res.state_sigs = [('login', scenario['logins'],
+    res.state_sigs = [('login', scenario['logins'], scenario.get('via'),
                        scenario['compress'] is not None)]
+    if st.get('handler_reconnect'):
+        res.probes['second-login-from-exception-handler'] = 1
     ob()
     if sim.end_state != 'done':
         V.append(('C18/%s' % sim.end_state, repr(sim.end_detail)))
@@ -359,7 +387,7 @@ def shrink_scenario(sc):
                 if key == 'items':
                     c['server']['conns'][k]['play'] = c['items'][k]
                 yield c
-    if sc['logins'] > 1:
+    if sc['logins'] > 1 and sc.get('via') != 'handler':
         c = copy.deepcopy(sc)
         c['logins'] = 1
         for key in ('items', 'writes'):
@@ -376,7 +404,7 @@ def shrink_scenario(sc):
 def evidence(tier, seed, m, d):
     return common.base_evidence(
         sys.modules[__name__], tier, seed, m, d,
-        rule='70%: one or two consecutive encrypted logins (1024/2048-bit '
+        rule='70%: one or two consecutive encrypted logins - the second after a user disconnect() or started by the exception handler after the server dropped the first connection - (1024/2048-bit '
              'fixture keys, verify tokens of 1..64 bytes, optional '
              'compression) followed by up to 12 server->client and 10 '
              'client->server plugin messages of 0..4000 bytes, under '
